@@ -118,6 +118,13 @@ INDEPENDENT = [
     "SELECT a FROM u JOIN t ON t.a = u.a",
     "SELECT a FROM t LEFT JOIN u ON t.a = u.a",
     "SELECT a FROM t ORDER BY a",
+    # flags spelled out vs left to the default: equal trees (== ignores None / False), so the delta must be empty
+    "SELECT a FROM t ORDER BY a ASC",
+    "SELECT a FROM t ORDER BY a DESC",
+    "SELECT a FROM t ORDER BY a NULLS FIRST",
+    "SELECT DISTINCT a FROM t",
+    "SELECT ALL a FROM t",
+    "SELECT a FROM t INNER JOIN u ON t.a = u.a",
     "SELECT a FROM t GROUP BY a",
     "SELECT COUNT(*) FROM t",
     "SELECT CAST(a AS INT) FROM t",
